@@ -231,7 +231,11 @@ def make_base(spec, mixins=()):
             return self._spec.get("interpolation", {}).get(variable, self.INTERPOLATION_LINEAR)
 
         def delayed_feedback(self):
-            return [tuple(x) for x in self._spec.get("delayed_feedback", [])]
+            out = []
+            for expr, state, duration in self._spec.get("delayed_feedback", []):
+                d = ast_casadi(duration, self._sym) if isinstance(duration, list) else fl(duration)
+                out.append((ast_casadi(expr, self._sym), state, d))
+            return out
 
         # -- objective and constraints from ASTs ----------------------------------------------------
         def _point_sym(self, m):
